@@ -181,6 +181,16 @@ func (w *World) ledgerProbes(full bool, withIGP bool) []Probe {
 			out = append(out, mk(orbEnc[0], memoM{fmt.Sprintf("%s/fee%d", f, fi), Memo(f, fees), &f, fees}, "channel-0", denomUSDC, "4000", false))
 		}
 	}
+	// (3c) packet data that is a valid orbiter-addressed ICS-20 document FOLLOWED by something (ICS-20's own decoder reads the
+	// first JSON value and ignores the rest): whichever way the middleware classifies it, nothing may stay on the account
+	for _, tail := range []string{"x", "}", "{}", " null", "\x00", "\n\n{\"orbiter\":1}", ",", "]"} {
+		for _, m := range []string{Memo(w.FwdInternal(w.Bob), nil), Memo(w.FwdCCTP(0), w.feeMenu()[1]), ""} {
+			base := NewPkt("channel-0", denomUSDC, "1000", w.Orb.String(), m)
+			raw := append(append([]byte{}, base.Data()...), []byte(tail)...)
+			out = append(out, Probe{Label: fmt.Sprintf("raw: orbiter-addressed ICS-20 data + trailing %q memo=%s", tail, trunc(m, 40)), Group: "raw-trailing",
+				Pkt: Pkt{SrcPort: "transfer", SrcChan: "channel-7", DstPort: "transfer", DstChan: "channel-0", Raw: raw}})
+		}
+	}
 	// (4) Hyperlane token on a mailbox whose required hook charges gas (igp configuration), and the ordinary token with a
 	// gas paymaster named as custom hook
 	if withIGP {
